@@ -3,7 +3,7 @@ from __future__ import annotations
 
 from . import scopes
 from sa.schema import load_schemas
-from . import lib_schema, lib_module, lib_py
+from . import lib_schema, lib_module, lib_py, lib_file
 
 LEVEL = "other"
 EXPLANATION = ("Schema completeness of equals/copy/dump/load for every column of every table and for the collection-level items, "
@@ -22,6 +22,7 @@ def run(ctx):
     lib_schema.append_columns(ctx, P, S)
     lib_schema.collection(ctx, P)
     lib_schema.read_format(ctx, P)
+    lib_file.layout_agreement(ctx, P)
     lib_schema.dict_interchange(ctx, P, S)
     io = lambda f: any(t in f for t in ("_copy", "_load", "_dump", "_set_columns", "_takeset_columns", "_append_columns", "read_", "write_"))
     lib_schema.argname(ctx, P, tus=("tables",), funcs=io)
